@@ -173,6 +173,43 @@ theorem treat_as_returns_operand (tb : Tables) (xsd11 : Bool) (t : Ty) (v w : Li
   | error e => simp [hi] at h
   | ok b => cases b <;> simp [hi] at h; exact ⟨h.symm, rfl⟩
 
+/-! ## names and namespaces -/
+
+/-- the expansion of the lexical names of kind tests that the code performs (`get_expanded_name` with the parser's
+namespaces for element tests, no default namespace for attribute tests) is the one XPath 3.1 prescribes -/
+theorem resolve_name_eq_spec (cfg : NsCfg) (isAttr : Bool) (lex : Nat) :
+    resolveName cfg isAttr lex = specResolveName cfg.dflt cfg.p cfg.q isAttr lex := by
+  unfold resolveName specResolveName
+  rcases h : lex / 100 with _ | _ | k <;> simp
+  cases isAttr <;> simp
+
+/-- an unprefixed attribute name never takes the default element namespace; an unprefixed element name does -/
+theorem resolve_unprefixed (cfg : NsCfg) (l : Nat) (h : l < 100) :
+    resolveName cfg true l = l ∧ resolveName cfg false l = 100 * cfg.dflt + l := by
+  have h0 : l / 100 = 0 := Nat.div_eq_of_lt h
+  have h1 : l % 100 = l := Nat.mod_eq_of_lt h
+  simp [resolveName, h0, h1]
+
+/-- without statically known namespaces unprefixed types are left as they are (the judgements without
+namespaces are the special case `NsCfg.none`) -/
+theorem resolve_none_id (n : Nat) (h : n < 100) (isAttr : Bool) : resolveName NsCfg.none isAttr n = n := by
+  have h0 : n / 100 = 0 := Nat.div_eq_of_lt h
+  have h1 : n % 100 = n := Nat.mod_eq_of_lt h
+  cases isAttr <;> simp [resolveName, NsCfg.none, h0, h1]
+
+/-- resolving names changes neither the occurrence indicator nor the kind of a type: the theorems above
+(`occurrence_cardinality`, `match_eq_spec`, `restriction_sound_partial` …) apply to the resolved type as they are -/
+theorem resolve_shape (cfg : NsCfg) (t : Ty) :
+    (t.resolve cfg).ownOcc = t.ownOcc ∧ ((t.resolve cfg = .empty) ↔ t = .empty) := by
+  cases t <;> simp [Ty.resolve, Ty.ownOcc]
+
+/-- with statically known namespaces `match_sequence_type` is XPath matching of the resolved type (instance of
+`match_eq_spec`) -/
+theorem match_eq_spec_ns (tb : Tables) (st : SpecTables) (xsd11 : Bool) (ha : SpecAgree tb st xsd11)
+    (cfg : NsCfg) (t : Ty) (v : List Item) (hd : domT (t.resolve cfg) v = true) :
+    matchSt tb xsd11 true (t.resolve cfg) v = .ok (specMatch st (isRestriction tb) (t.resolve cfg) v) :=
+  matchSt_eq_spec tb st xsd11 ha _ v hd
+
 /-! ## the string-driven code against the AST -/
 
 /-- a type is `simple` (no typed function test, no typed map test inside) exactly when its normalised text
@@ -238,7 +275,7 @@ theorem partial_of_partial (a : Tys) (r : Ty) (m1 m2 : List Bool) :
 `instance of`, `treat as`, and partial applications, on a pool of items) the answer of every operation is
 the answer of that single operation on the pool obtained from the *partial applications* that precede it
 alone: no earlier judgement changes any later answer, a judgement is a function of (value, type). -/
-theorem judgement_history_independent (tb : Tables) (xsd11 : Bool) (pool : List Item)
+theorem judgement_history_independent (tb : Tables) (xsd11 : Bool) (pool : List (List Item))
     (pre post : List HOp) (op : HOp) :
     (hRun tb xsd11 pool (pre ++ op :: post))[pre.length]? =
       some (hStep tb xsd11 (hPool tb xsd11 pool (pre.filter HOp.isPartial)) op).2 := by
@@ -247,8 +284,29 @@ theorem judgement_history_independent (tb : Tables) (xsd11 : Bool) (pool : List 
   rfl
 
 /-- a judgement leaves the pool as it was -/
-theorem judgement_does_not_change_items (tb : Tables) (xsd11 : Bool) (pool : List Item) (op : HOp)
+theorem judgement_does_not_change_items (tb : Tables) (xsd11 : Bool) (pool : List (List Item)) (op : HOp)
     (h : op.isPartial = false) : (hStep tb xsd11 pool op).1 = pool :=
   hStep_judgement_pool tb xsd11 pool op h
+
+/-- **Function conversion does not change its argument.**  Passing a stored value (a sequence, an array member, a
+map entry) through a function whose parameter or result type promotes it (integer / decimal → double / float,
+untypedAtomic → the declared type, anyURI → string) appends a NEW value to the pool; every value that was there,
+in particular the array or map the member was fetched from, is afterwards exactly what it was — so it is judged
+as before, member by member. -/
+theorem coercion_does_not_change_argument (tb : Tables) (xsd11 : Bool) (pool : List (List Item))
+    (i k : Nat) (t r : Ty) (j : Nat) (hj : j < pool.length) :
+    (hStep tb xsd11 pool (.coerce i k t r)).1.getD j [] = pool.getD j [] := by
+  obtain ⟨e, h⟩ := hStep_prefix tb xsd11 pool (.coerce i k t r)
+  rw [h, List.getD_eq_getElem?_getD, List.getD_eq_getElem?_getD, List.getElem?_append_left hj]
+
+/-- the same over whole histories: a value in the pool is never changed by later operations, hence
+(`judgement_history_independent`) every later judgement of it answers as the first one did -/
+theorem history_items_persist (tb : Tables) (xsd11 : Bool) (ops : List HOp) (pool : List (List Item)) (j : Nat)
+    (hj : j < pool.length) : (hPool tb xsd11 pool ops).getD j [] = pool.getD j [] :=
+  hPool_getD tb xsd11 ops pool j hj
+
+/-- a promoted sequence has the length of the argument (promotion is item by item) -/
+theorem conversion_keeps_length (tb : Tables) (t : Nat) (v : List Item) : (castSeq tb t v).length = v.length :=
+  castSeq_length tb t v
 
 end EPV.C18
